@@ -452,7 +452,10 @@ class ContentSecurityPolicySourceHash(ParsableBase, Serializable):
 
         parser.parse_string_until_separator_or_end('hash_value', ' ')
 
-        return cls(parser['hash_algorithm'].hash_algorithm, parser['hash_value']), parser.parsed_length
+        try:
+            return cls(parser['hash_algorithm'].hash_algorithm, parser['hash_value']), parser.parsed_length
+        except TypeError as e:
+            six.raise_from(InvalidValue(parser['hash_value'], cls, 'hash_value'), e)
 
     def compose(self):
         composer = ComposerText()
@@ -489,7 +492,10 @@ class ContentSecurityPolicySourceNonce(ParsableBase, Serializable):
 
         parser.parse_string_until_separator_or_end('value', ' ')
 
-        return cls(**parser), parser.parsed_length
+        try:
+            return cls(**parser), parser.parsed_length
+        except TypeError as e:
+            six.raise_from(InvalidValue(parser['value'], cls, 'value'), e)
 
     def compose(self):
         composer = ComposerText()
